@@ -4,9 +4,9 @@ NOT_APPLICABLE = {}
 CLAIMS = {
     "C13": dict(
         text="spec/Forms.tla defines a grammar of bilinear forms over grad u and grad v (transpose, symmetric part, tr(.) I, double contraction, weights, sums, constant or position-dependent coefficient) and computes the meaning of every "
-        "form as an exact coefficient tensor by evaluating it on unit gradients; TLC enumerates all 152 forms (2-D and 3-D) and checks the trial/test duality of the tensor. Every TLC state is compiled to a Python lambda over Field / FeArray "
+        "form as an exact coefficient tensor by evaluating it on unit gradients; the grammar includes the product with a fixed UNSYMMETRIC matrix, so that part of the forms are not symmetric in (u, v) and the orientation of the element matrix (row = test function) is decided; TLC enumerates all 264 forms (2-D and 3-D) and checks the trial/test duality of the tensor. Every TLC state is compiled to a Python lambda over Field / FeArray "
         "operations; BiLinearForm.Integrate_e (twice with the same Field object) and .Assemble are compared with explicit sums over the tensor and with the scatter-add, on several element types. Outside the grammar: forms coinciding with built-in "
-        "operators (grad.grad, scalar and vector mass, isotropic elasticity) against Operators.Bilinear, LinearForm.Integrate_e / Assemble against their definition, and Simulations.WeakForms against Simulations.Thermal / Elastic.",
+        "operators (grad.grad, scalar and vector mass, isotropic elasticity) against Operators.Bilinear, advection forms that involve the value of the trial field and linear forms on vector fields against their definitions, LinearForm.Integrate_e / Assemble against their definition, and Simulations.WeakForms against Simulations.Thermal / Elastic.",
         note="Trusted: TLC for the tensors; the compiler from expression to lambda (a dozen lines); dN, wJ of the library as ingredients of the reference sums (validated by C06/C07/C01).",
         technique="TLA+ grammar + meaning (coefficient tensors) enumerated by TLC; each form compiled and replayed through the forms API",
         design_ref="DESIGN.md 6/C13",
@@ -24,7 +24,7 @@ CLAIMS = {
         text="spec/Geometry.tla accumulates the public motions (translation, rotation by the Pythagorean angle atan2(4,3) about coordinate axes through rational centres, reflections) as an exact rational affine map; TLC enumerates "
         "every sequence of up to 1 (quick) / 2 (thorough) motions and checks that the map stays an isometry with the right parity. Every frame is replayed on unstructured meshes of the integer pentagon (2-D, also moved out of the plane "
         "as an embedded surface) and its extrusion for every listed element type: node coordinates equal A X + b, measure unchanged, the boundary normals integrate to zero and to dim x measure against the position vector, and a nodal "
-        "polynomial field of the element's order evaluated at the exactly moved query points (interior, on an edge, on vertices, nodes; batch, single, pair) returns the polynomial.",
+        "polynomial field of the element's order evaluated at the exactly moved query points (interior, on an edge, on vertices, nodes; batch, single, pair) returns the polynomial. One of the motions is a translation by 100 000 (round-off of the moved points 1e-11).",
         note="Trusted: TLC for the exact frames and query points; gmsh meshes (general straight-sided quadrangles / hexahedra). Serendipity types are asked for degree 1 only. Two recorded findings (orientation of the normals in 2-D, "
         "base face of extruded 3-D meshes) are reproduced on every run and reported as KNOWN-FINDING; closure and flux magnitude remain checked.",
         technique="TLA+ exact group action enumerated by TLC; each frame replayed on real meshes (direction A)",
@@ -43,7 +43,7 @@ CLAIMS = {
         text="spec/Pipeline.tla enumerates the configuration product (elasticity 2D/3D and heat conduction x element type x law {isotropic, transversely isotropic, orthotropic, anisotropic with rotated axes} x plane stress / plane strain x mesh kind "
         "{unstructured, renumbered, mixed TRI3+QUAD4 / prism boundary} x affine map {identity, shear+stretch, orientation-reversing} x basis of linear fields + a combination; Euler-Bernoulli and Timoshenko beams on SEG2..SEG5 in 1D/2D/3D with "
         "constant axial strain / constant curvature) and states the exact expectations (constant strain sym(G), measure |det A| x shoelace area x height, N = EA e, M = EI kappa). Every TLC state is replayed: integer pentagon (or its extrusion) "
-        "meshed by gmsh, mapped, optionally renumbered, field prescribed on the whole boundary by functions of position, Solve(); nodal values at interior nodes, reported strain, stress (through S sigma = eps), energy and beam internal forces are compared at 1e-9. The form of the boundary data (functions, nodal arrays, nodal arrays on a permuted node list) and the solver path (elimination, or Lagrange multipliers: a tie satisfied by the exact field / two welded beam members, with non-zero prescribed values) are dimensions of the product.",
+        "meshed by gmsh, mapped, optionally renumbered, field prescribed on the whole boundary by functions of position, Solve(); nodal values at interior nodes, reported strain, stress (through S sigma = eps), energy and beam internal forces are compared at 1e-9. The form of the boundary data (functions, nodal arrays, nodal arrays on a permuted node list) and the solver path (elimination, or Lagrange multipliers: a tie satisfied by the exact field / two welded beam members, with non-zero prescribed values) are dimensions of the product, and so is the unit of length (the same body written with coordinates 1e-4 or 1e4 times as large; TLC checks the scaling law of the measure on the factors 2 and 1/2).",
         note="Trusted: TLC (enumeration, exact strain / measure / beam forces), the compliance validated by C11 as stress oracle, gmsh meshes (vacuity guard: every mesh must have interior nodes). Quick tier: a seeded half of the product (4+3 element types), thorough: all 15.",
         technique="TLA+ configuration/expectation model enumerated by TLC; each state replayed through the real solve pipeline",
         design_ref="DESIGN.md 6/C01",
@@ -52,7 +52,7 @@ CLAIMS = {
         text="spec/ElasticLaws.tla computes in exact rationals the compliance (engineering notation, global axes) of every case: isotropic, transversely isotropic, orthotropic (documented compliances in material axes) "
         "and anisotropic (given law, Voigt and Kelvin-Mandel input, and a whole-number law C = L L^T with normal-shear coupling given as an INTEGER array), rotated by exact rational frames (in-plane, about y, generic 3-D quaternion rotations, axis permutation) through the Bond strain transformation, 3D and the "
         "plane-stress sub-block, with unit and non-unit axis vectors. The compliance the library reports is converted from Kelvin-Mandel to engineering components, snapped to rationals and compared EXACTLY by TLC (a TLC "
-        "mismatch that the floats do not confirm at 1e-10 is a machinery error, never a verdict). On the same cases: stiffness symmetric positive definite, C S = I, plane strain = sub-block of the inverse of the exact 3-D "
+        "mismatch that the floats do not confirm at 1e-10 is a machinery error, never a verdict). On the same cases: stiffness symmetric positive definite, C S = I, unit law (ElasticLaws.tla: S(k moduli) = S / k, every parametric case built a second time with moduli x 2^40 and judged against the same exact expectation), plane strain = sub-block of the inverse of the exact 3-D "
         "compliance, change-of-basis matrices orthogonal (also for non-unit axes), parameter change visible at the next read, per-element parameter fields.",
         note="Trusted: TLC, the transcription of the documented compliances, snapping (denominators <= 2e6 within 1e-12 relative; constants chosen so that rotated entries stay on that lattice).",
         technique="exact TLA+ model of the laws (Bond transformation over rationals); reported compliances validated against it by TLC (trace validation over the case lattice)",
@@ -65,16 +65,16 @@ CLAIMS = {
         "plane-stress integration (stress and condensed algorithmic tangent vs the exact E or E(H+C)/(E+H+C)). (2) For every constructor-accepted combination of yield surface (von Mises, Hill, Drucker-Prager) x isotropic "
         "hardening (none, linear, Voce, Swift) x kinematic hardening (none, Prager, Armstrong-Frederick, Chaboche) x 3D / plane strain / plane stress, random non-proportional paths with reversals are recorded and reduced "
         "to the relations of the property (f <= tol, dp >= 0, traceless, dissipation >= 0, finite-difference tangent, solver agreement, no out-of-plane stress, purity of Integrate); Trace_Plasticity.tla requires them at "
-        "every step. (3) spec/InelasticCommit.tla (Pure, Commit, StoreFrozen model-checked) and its behaviours replayed on a real Simulations.InElastic with content hashes of the committed state.",
-        note="Trusted: TLC; exact model only for the linear laws; for the other laws the compared values come from the implementation itself (inequalities / finite differences at 2e-4). Rate-dependent laws and Maxwell branches "
-        "are not yet in the combination table (DESIGN.md growth item). Admissibility tolerance 1e-7 sigma_y (1e-6 in plane stress, the plane-stress iteration's own tolerance).",
+        "every step. Von Mises plasticity together with a Maxwell branch (time step 0.1; perfect / linear hardening x none / Prager / Armstrong-Frederick x 3D / plane strain / plane stress) is recorded the same way and judged by the clauses that need no closed form of the stress (tangent, solver agreement, purity). (3) spec/InelasticCommit.tla (Pure, Commit, StoreFrozen model-checked) and its behaviours replayed on a real Simulations.InElastic with content hashes of the committed state.",
+        note="Trusted: TLC; exact model only for the linear laws; for the other laws the compared values come from the implementation itself (inequalities / finite differences at 2e-4). Rate laws (Norton, Perzyna) "
+        "are reached by fixed scenarios only (scenarios/C19), not by the combination table. Admissibility tolerance 1e-7 sigma_y (1e-6 in plane stress, the plane-stress iteration's own tolerance).",
         technique="exact TLA+ return-map model with exhaustive path replay + recorded constitutive traces validated by a TLA+ trace specification + commit-discipline state machine replay",
         design_ref="DESIGN.md 6/C19",
     ),
     "C20": dict(
         text="spec/Partition.tla transcribes the per-rank ownership and ghost-layer construction (types in order, ranks in order, shared claim map). TLC checks - exhaustively over all assignments of the cells "
         "of small meshes with one and two main-dimension element types to 2 and 3 ranks - that every element and every node has exactly one owner and that a part holds every element touching a node it owns "
-        "(row completeness), and rejects the defective ghost rule found in the code. Real gmsh partitions (TRI3/TRI6/QUAD4/QUAD8, a mixed TRI3+QUAD4 plate with a hole, TETRA4/PRISM6; more types and part counts in "
+        "(row completeness), and rejects the defective ghost rule found in the code. Real gmsh partitions (TRI3/TRI6/QUAD4/QUAD8, a mixed TRI3+QUAD4 plate with a hole, a plate with a TRI3 half and a QUAD4 half cut into 3-13 parts so that some ranks own no element of one type, TETRA4/PRISM6; more types and part counts in "
         "the thorough tier) are recorded - assignment and the five per-group arrays - and validated by Trace_Partition.tla (recomputed ownership/ghosts equal the recorded ones, invariants hold). Per part a real "
         "simulation assembles K: owned rows equal the global rows, owned-row energies sum to the global energy; numbering/coordinates kept; partitioning twice gives identical data; Mesh.Merge with mapping on coincident and disjoint meshes.",
         note="Trusted: TLC; gmsh as the partitioner (environment assumption of the exhaustive model: a boundary element lies in the part of the cell it bounds - the model without it is reported as fragility in the evidence). "
@@ -129,7 +129,7 @@ CLAIMS = {
         text="spec/Spectrum.tla enumerates every (physics, dimension, element type, density, thickness) configuration - elasticity 2D/3D on the 15 surface/volume types, heat conduction on "
         "all 19 types incl. segments, Euler-Bernoulli and Timoshenko beams on SEG2..SEG5 in 1D/2D/3D (inclined members) - and states the expected attributes exactly: kernel dimension, "
         "definiteness class of the mass matrix, mass total rho*measure*thickness as a rational. Each TLC state is built with the real code and analysed densely: symmetry, inertia, "
-        "number of zero-energy modes equal to the expected one, K r = 0 for the translations and infinitesimal rotations, M definite / semi-definite, entry sums. Members are drawn towards every quadrant, and continuum configurations exist on the integer box and on a disk / cylinder whose elements of degree >= 2 have curved edges (non-constant Jacobian inside simplices).",
+        "number of zero-energy modes equal to the expected one, K r = 0 for the translations and infinitesimal rotations, M definite / semi-definite, entry sums. Members are drawn towards every quadrant, and continuum configurations exist on the integer box and on a disk / cylinder whose elements of degree >= 2 have curved edges (non-constant Jacobian inside simplices), and in metres as well as in micrometres (unit of length 1e-6: every attribute is unchanged and the mass total scales by the cube / square of the unit; beam matrices are analysed after the congruence that rescales the rotation dofs).",
         note="Trusted: dense eigvalsh with threshold 1e-9*lambda_max; meshes of integer boxes (2 meshes per configuration in the thorough tier). TLC's role is enumeration, the exact expected values and coverage accounting; "
         "the numerical attributes are computed from the implementation's matrices.",
         technique="TLA+ attribute table enumerated by TLC, each state replayed as a dense spectral analysis of the real matrices",
@@ -159,7 +159,7 @@ CLAIMS = {
         "entered several times, even split of point loads, unit diagonal on orphan dofs, reduced solve by Cramer. TLC checks the definition's own consistency (prescribed "
         "sums, equilibrium of free rows). Every TLC behaviour is replayed through add_dirichlet/add_neumann (constants, arrays, functions of position) and Solve() with "
         "scipy, cg, bicg, gmres, lgmres, bounded least squares, the Lagrange-multiplier route and the Newton-incremental route; the returned vector and "
-        "Bc_vector_Dirichlet() are compared with TLC's rationals. spec/Newton.tla models the Newton-incremental driver itself (test read before the update on |R|, |R|/|R_1|, |du|; first hit; refusal after maxIter) on a one-dof problem with an inexact tangent of contraction q; TLC checks that a returning solve has a residual below the bound of the criterion that fired and that no solve fails although a criterion was met, and every terminal state (432) is run through the real Solve(): status, and - as evidence - iteration count, iterate, recorded norms, assemblies and the state left by a refused solve.",
+        "Bc_vector_Dirichlet() are compared with TLC's rationals. spec/Newton.tla models the Newton-incremental driver itself (test read before the update on |R|, |R|/|R_1|, |du|; first hit; refusal after maxIter) on a one-dof problem with an inexact tangent of contraction q; TLC checks that a returning solve has a residual below the bound of the criterion that fired and that no solve fails although a criterion was met, and every terminal state (432) is run through the real Solve(): status, and - as evidence - iteration count, iterate, recorded norms, assemblies and the state left by a refused solve. spec/Connections.tla states which unknowns a fixed / hinged connection of two beam end nodes ties and which it leaves free (2-D, 3-D with every set of named axes); each state is solved on two members clamped at their far ends and loaded at the joint: tied unknowns are equal across the joint, and the dofs of a free unknown satisfy their own assembled equation (no moment transmitted).",
         note="Trusted: TLC, float-vs-rational comparison (1e-10 direct, 1e-4 Krylov). Lagrange route only when no dof is constrained twice (bordered system singular otherwise); "
         "empty reduced systems are not sent to lsq_linear/lgmres. K is supplied by a _Simu subclass. PETSc/pypardiso are not installed.",
         technique="TLA+ exact-rational model of constraint bookkeeping and reduced solve, TLC exhaustive; behaviours replayed into Solve() with every back end",
@@ -197,7 +197,7 @@ CLAIMS = {
         "defective variants (memo kept across a mesh-switching restore; iteration saved with the wrong mesh index). Store-centred TLC behaviours (Solve, Save_Iter, folder "
         "changes, Set_Iter, Get_results, mesh replacement, scheme switch, Save/Load_Simu round trip) are replayed on real simulations; after every action every stored "
         "iteration is re-read and compared with the snapshot taken by the harness when it was saved, restored fields and mesh are compared with the snapshot, reads must "
-        "leave the state fingerprint unchanged. Simulations whose stored iterations carry internal variables (InElastic) are driven by spec/InelasticCommit.tla: behaviours with Solve / SaveIter / SetIter / GetResults in every order, content hashes of displacement and committed state against the specification's tokens (the trial state of each Solve carries a token, so every SaveIter is judged by Commit).",
+        "leave the state fingerprint unchanged. Simulations whose stored iterations carry internal variables (InElastic) are driven by spec/InelasticCommit.tla: behaviours with Solve / SaveIter / SetIter / GetResults in every order, content hashes of displacement and committed state against the specification's tokens (the trial state of each Solve carries a token, so every SaveIter is judged by Commit). After SetIter every state field has the size of the restored mesh and an iteration saved under the static scheme leaves zero rates (va' = 0 in Lifecycle.tla).",
         note="Trusted: TLC, the harness's snapshots. Velocities/accelerations are required from a stored iteration only when saved and restored under a dynamic scheme. "
         "After a restore that switches mesh the environment re-enters boundary conditions (modelled explicitly in SetIter).",
         technique="TLA+ iteration-store specification (action properties), TLC exhaustive; TLC behaviours replayed into real simulations against shadow snapshots + Save_Iter / Set_Iter events of the repository's tests validated by Trace_Lifecycle.tla",
